@@ -138,12 +138,15 @@ func (c13) Run(u fw.Unit) fw.Result {
 	for i, t := range strs {
 		rows[i] = Row{"s": t, "id": i}
 	}
+	// two more rows without a text: s NULL and s missing - no pattern matches them (a NULL answer counts as not true)
+	nText := len(strs)
+	rows = append(rows, Row{"s": nil, "id": nText}, Row{"id": nText + 1})
 	for pi, p := range strs {
 		if pi%sp.Shards != sp.Shard {
 			continue
 		}
 		sql := c13SQL(sp.Ctx, p)
-		decisions := make([]int, len(strs)) // 1 true, 0 false, -1 unknown
+		decisions := make([]int, len(rows)) // 1 true, 0 false, -1 unknown
 		if sp.Ctx == "having" {
 			r := detExec(sql, detOpts{Eager: true}, func(e *Env) {
 				for _, row := range rows {
@@ -168,7 +171,7 @@ func (c13) Run(u fw.Unit) fw.Result {
 			}
 			for i, sr := range res {
 				if strings.HasPrefix(sr.Err, "PANIC") {
-					a.fail("C13|"+sp.Ctx+"|panic", sr.Err, map[string]any{"sql": sql, "text": strs[i]}, nil, nil)
+					a.fail("C13|"+sp.Ctx+"|panic", sr.Err, map[string]any{"sql": sql, "row": js(rows[i])}, nil, nil)
 					decisions[i] = -1
 					continue
 				}
@@ -189,6 +192,14 @@ func (c13) Run(u fw.Unit) fw.Result {
 						decisions[i] = 1
 					}
 				}
+			}
+		}
+		for i := nText; i < len(rows); i++ {
+			a.r.Evaluations++
+			a.r.States++
+			if decisions[i] == 1 {
+				a.fail(fmt.Sprintf("C13|like|%s|null-text-matches", sp.Ctx), fmt.Sprintf("s LIKE '%s' is true in %s context for a row whose s is %s", p, sp.Ctx, map[bool]string{true: "NULL", false: "missing"}[i == nText]),
+					map[string]any{"sql": sql, "pattern": p, "context": sp.Ctx, "row": js(rows[i])}, false, true)
 			}
 		}
 		for i, t := range strs {
@@ -381,6 +392,72 @@ func c13Null(a *acc) {
 				}
 				if passed[i] != cb.want(c) {
 					a.fail("C13|combined|"+ctx+"|like-with-is-null", fmt.Sprintf("%s on s=%v t=%v: kept=%v, SQL semantics %v", sql, c.s, c.t, passed[i], cb.want(c)), map[string]any{"sql": sql, "s": c.s, "t": c.t}, cb.want(c), passed[i])
+				}
+			}
+		}
+	}
+	// patterns, texts and column names that spell SQL keywords (the engine picks evaluators by looking for
+	// keywords in the predicate text): the answer is the reference's in every context
+	kwTexts := []string{"casex", "case", "showcase", "other", "when", "order by", "andy", "is null", ""}
+	kwPats := []string{"case%", "%case", "%case%", "c_se", "when", "%and%", "order%", "%null", "is%"}
+	for _, ctx := range c13Contexts {
+		for _, col := range []string{"s", "caseNote", "orders"} {
+			for _, p := range kwPats {
+				sql := strings.ReplaceAll(strings.ReplaceAll(c13SQL(ctx, p), "first_value(s)", "first_value("+col+")"), " s LIKE", " "+col+" LIKE")
+				got := map[int]int{} // id -> 1 true, 0 false/absent, -1 no boolean
+				if ctx == "having" {
+					r := detExec(sql, detOpts{Eager: true}, func(e *Env) {
+						for i, t := range kwTexts {
+							e.Emit(Row{"id": i, col: t})
+						}
+					})
+					if r.ExecErr != "" || r.Status != sched.StatusOK {
+						a.fail("C13|keyword-like-text|"+ctx+"|exec", r.ExecErr+" "+r.Status.String(), map[string]any{"sql": sql}, nil, nil)
+						continue
+					}
+					for _, b := range r.Batches {
+						for _, row := range b {
+							got[toInt(row["id"])] = 1
+						}
+					}
+				} else {
+					var rows []Row
+					for i, t := range kwTexts {
+						rows = append(rows, Row{"id": i, col: t})
+					}
+					res, execErr, st, _ := syncEval(sql, rows)
+					if execErr != "" || st != sched.StatusOK {
+						a.fail("C13|keyword-like-text|"+ctx+"|exec", execErr+" "+st.String(), map[string]any{"sql": sql}, nil, nil)
+						continue
+					}
+					for i, sr := range res {
+						switch {
+						case ctx == "where":
+							if sr.Row != nil {
+								got[i] = 1
+							}
+						case sr.Row == nil:
+							got[i] = -1
+						default:
+							if t, ok := truthy(sr.Row["r"]); !ok {
+								got[i] = -1
+							} else if t {
+								got[i] = 1
+							}
+						}
+					}
+				}
+				for i, t := range kwTexts {
+					a.r.Evaluations++
+					a.r.States++
+					want := ref.Like(t, p)
+					if want {
+						a.r.Nontrivial++
+					}
+					if got[i] == -1 || (got[i] == 1) != want {
+						a.fail("C13|keyword-like-text|"+ctx+"|like-wrong", fmt.Sprintf("%s on %s = %q: engine says %v, SQL semantics %v", sql, col, t, map[int]string{1: "true", 0: "false", -1: "no boolean"}[got[i]], want),
+							map[string]any{"sql": sql, "text": t, "pattern": p, "column": col}, want, got[i])
+					}
 				}
 			}
 		}
